@@ -87,8 +87,11 @@ def run(an: Analysis, rep):
     from .common import SharedRules, purity, truthiness_rule
     from . import c01
     rep.run(purity, an, rep, "R10.P", ["from_code", "to_code"])
-    from .common import identity_rule
+    from .common import identity_rule, old_interpreter_rule
     rep.run(identity_rule, an, rep, "R10.I", ["from_code", "to_code"])
+    rep.run(old_interpreter_rule, an, rep, "R10.V", ["from_code", "to_code"])
+    rep.run(c01.r01a, an, SharedRules(rep, "R10.N", "what the decoder takes out of the decoded line mapping reaches the data on every path (shared with C01's R01.A): entries dropped on the way are missing "
+                                                   "when the mapping is rebuilt for re-encoding"), "R01.A", "not dropped")
     rep.run(c01.r017, an, SharedRules(rep, "R10.K", "the mapping handed to the table builder has a key for every code unit it sizes entries from (shared with C01's R01.7): 're-encoding the decoded mapping reproduces the table byte for byte'"))
     rep.run(c01.r015_every_line, an, SharedRules(rep, "R10.O", "the shift by the first line number covers every line of the mapping, the trailing entry included (shared with C01's R01.5)"))
     rep.run(c01.r015_order, an, SharedRules(rep, "R10.O", "the shift by the first line number covers every line of the mapping, the trailing entry included (shared with C01's R01.5)"))
